@@ -20,7 +20,7 @@ if [ -n "$DEMO" ]; then
   PYTHONPATH="$WT" timeout 600 /venv/bin/python "$DEMO" >/dev/null 2>&1; echo "demo patched rc=$?"
 fi
 if [ -z "$SKIP_SUITE" ]; then
-env -u SYNAPGRAD_VERIF PYTHONPATH="$WT" /venv/bin/python -m pytest -q -p no:cacheprovider --timeout=900 tests 2>&1 | tail -1 | sed 's/^/suite: /'
+env -u SYNAPGRAD_VERIF OMP_NUM_THREADS=2 OPENBLAS_NUM_THREADS=2 MKL_NUM_THREADS=2 PYTHONPATH="$WT" /venv/bin/python -m pytest -q -p no:cacheprovider --timeout=900 tests 2>&1 | tail -1 | sed 's/^/suite: /'
 fi
 cd ${VERIF_DIR:-/verif}
 for P in $PIDS; do
